@@ -928,7 +928,10 @@ func (e *Engine) lookupType(name string) types.Type {
 			return tn.Type()
 		}
 	}
-	for _, p := range e.Pkgs {
+	for _, p := range e.Prog.AllPackages() {
+		if !strings.Contains(name, p.Pkg.Name()+".") {
+			continue
+		}
 		for _, m := range p.Members {
 			if t, ok := m.(*ssa.Type); ok && e.W.typeString(t.Type()) == name {
 				return t.Type()
